@@ -24,6 +24,7 @@ type harnessCfg struct {
 	MaxConcretize int    `json:"max_concretize"`
 	MaxPaths      int    `json:"max_paths"`
 	Preempt       int    `json:"preempt"`
+	Delays        int    `json:"delays"` // delay bound (round-robin scheduler with at most this many delays); 0 = pre-emption-bounded mode
 	RaceMonitor   bool   `json:"race_monitor"`
 	Twin          bool   `json:"twin"` // vacuity twin: must yield a violation
 	Tier          string `json:"tier"` // "", "quick", "thorough": run only in that tier (""=both)
